@@ -117,7 +117,7 @@ fn client_source(g: &mut Rng, names: &[String], via: &str) -> String {
         _ => "(import \"lib.libsonnet\")",
     };
     let f = |g: &mut Rng| g.pick(names).clone();
-    match g.below(14) {
+    match g.below(22) {
         0 => format!("{l}.{}", f(g)),
         1 => format!("local l = {l}; [l.{}, l.{}]", f(g), f(g)),
         2 => format!("local l = {l}; {{ a: l.{}, b: l.{} }}", f(g), f(g)),
@@ -131,6 +131,16 @@ fn client_source(g: &mut Rng, names: &[String], via: &str) -> String {
         10 => format!("local l = {l}; l.{} == l.{}", f(g), f(g)),
         11 => format!("function(cfg={l}, k=\"{}\") cfg[k]", f(g)),
         12 => format!("local l = {l}; [std.type(l.{}), l.guarded.y, l.halfbad.good]", f(g)),
+        // values whose top level is cheap and whose depth is not: a later request must still get them deep
+        13 => format!("local l = {l}; [[l.{}, [l.{}]], {{ p: {{ q: l.{} }} }}]", f(g), f(g), f(g)),
+        14 => "function(x) std.length(x) + std.length(std.toString(std.type(x[0])))".to_string(),
+        15 => "function(x, k=\"shallow\") if std.isObject(x) then std.objectHas(x, k) else std.type(x)".to_string(),
+        16 => format!("local l = {l}; {{ a: [l.{}], b: {{ c: [l.{}] }} }}", f(g), f(g)),
+        17 => "[1, import \"broken.jsonnet\"]".to_string(),
+        // dynamic lookup of a name that only another source (ghost.jsonnet) ever interns, on objects with asserts
+        18 => format!("local l = {l}; l.guarded[\"gho\" + \"st\"]"),
+        19 => format!("local l = {l}; [\"gho\" + \"st\" in l.guarded, std.objectHas(l.checked, \"gho\" + \"st\"), l.outer[\"gho\" + \"st\"]]"),
+        20 => "function(o, k=\"gho\" + \"st\") o[k]".to_string(),
         _ => format!("{l}"),
     }
 }
@@ -158,14 +168,36 @@ pub fn gen_history_mode(seed: u64, with_faults: bool, session: bool) -> History 
         files.insert(name.clone(), client_source(&mut g, &names, via).into_bytes());
         srcs.push(name);
     }
-    if g.chance(1, 3) {
+    if g.chance(1, 2) {
         // a source that interns a name an earlier dynamic lookup missed
         files.insert("ghost.jsonnet".into(), b"{ ghost: 1 }.ghost".to_vec());
         srcs.push("ghost.jsonnet".into());
     }
-    if g.chance(1, 6) {
-        files.insert("broken.jsonnet".into(), b"local x = 1; y".to_vec());
+    {
+        // a source that never loads (also imported by some clients): static, syntax or lexical error
+        let text: &[u8] = match g.below(3) {
+            0 => b"local x = 1; y",
+            1 => b"{ a: 1, b: }",
+            _ => b"local s = \"unterminated; s",
+        };
+        files.insert("broken.jsonnet".into(), text.to_vec());
+    }
+    if g.chance(1, 4) {
+        // loads that fail: static, syntax and lexical errors (their spans are part of the compared outcome,
+        // and later sources get span contexts after them)
+        let text: &[u8] = match g.below(4) {
+            0 => b"local x = 1; y",
+            1 => b"{ a: 1, b: }",
+            2 => b"local s = \"unterminated; s",
+            _ => b"local f(a, a) = a; f(1, 2) + self.x",
+        };
+        files.insert("broken.jsonnet".into(), text.to_vec());
         srcs.push("broken.jsonnet".into());
+        if g.chance(1, 2) {
+            // a source whose run-time error span lies in a context registered after the failed load
+            files.insert("late.jsonnet".into(), b"local l = import \"lib.libsonnet\"; [l.shallow, [1, 2][l.shallow + 1]]".to_vec());
+            srcs.push("late.jsonnet".into());
+        }
     }
     if session {
         // the same relative import string resolving differently per importing directory / search path
@@ -746,47 +778,59 @@ fn one_run(root: u64, i: u64, want_sample: bool) -> One {
 }
 
 pub fn batch(root: u64, histories: u64, workers: usize) -> Batch {
-    let results = crate::util::run_pool(histories, workers, |i| one_run(root, i, i < 4));
     let mut b = Batch { histories, ..Default::default() };
     let mut sigs = std::collections::HashSet::new();
-    for r in &results {
-        b.hashes.push(r.log_hash);
-        if r.faulted {
-            b.faulted_histories += 1;
-        }
-        b.requests += r.requests;
-        b.requests_compared += r.st.requests_compared;
-        b.inconclusive += r.st.inconclusive;
-        b.relaxed_r1 += r.st.relaxed_r1;
-        b.faulted_failed_legitimately += r.st.faulted_failed_legitimately;
-        b.gcs_inside_requests += r.gcs_inside;
-        crate::util::merge_counts(&mut b.probes, &r.st.probes);
-        crate::util::merge_counts(&mut b.fault_kinds, &r.fault_kinds);
-        sigs.extend(r.st.sigs.iter().copied());
-        for n in &r.st.inconclusive_notes {
-            if b.inconclusive_notes.len() < 5 {
-                b.inconclusive_notes.push(n.clone());
+    let keep_hashes = std::env::var("VERIF_HASH_DUMP").is_ok();
+    let step = (histories / 64).max(1);
+    let mut sampled: Vec<(u64, u64)> = Vec::new();
+    const CHUNK: u64 = 50_000;
+    let mut base = 0u64;
+    while base < histories {
+        let n = CHUNK.min(histories - base);
+        let results = crate::util::run_pool(n, workers, |k| one_run(root, base + k, base + k < 4));
+        for (k, r) in results.iter().enumerate() {
+            let i = base + k as u64;
+            if keep_hashes {
+                b.hashes.push(r.log_hash);
+            }
+            if i % step == 0 && r.failure.is_none() && sampled.len() < 64 {
+                sampled.push((i, r.log_hash));
+            }
+            if r.faulted {
+                b.faulted_histories += 1;
+            }
+            b.requests += r.requests;
+            b.requests_compared += r.st.requests_compared;
+            b.inconclusive += r.st.inconclusive;
+            b.relaxed_r1 += r.st.relaxed_r1;
+            b.faulted_failed_legitimately += r.st.faulted_failed_legitimately;
+            b.gcs_inside_requests += r.gcs_inside;
+            crate::util::merge_counts(&mut b.probes, &r.st.probes);
+            crate::util::merge_counts(&mut b.fault_kinds, &r.fault_kinds);
+            sigs.extend(r.st.sigs.iter().copied());
+            for n in &r.st.inconclusive_notes {
+                if b.inconclusive_notes.len() < 5 {
+                    b.inconclusive_notes.push(n.clone());
+                }
+            }
+            if let Some(s) = &r.sample {
+                b.samples.push(s.clone());
+            }
+            if let Some(v) = &r.failure {
+                if b.violations.len() < 500 {
+                    b.violations.push(v.clone());
+                }
             }
         }
-        if let Some(s) = &r.sample {
-            b.samples.push(s.clone());
-        }
-        if let Some(v) = &r.failure {
-            b.violations.push(v.clone());
-        }
+        base += n;
     }
     b.distinct_nontrivial = sigs.len();
-    let step = (histories / 50).max(1);
-    let mut i = 0;
-    while i < histories && b.determinism_reexecuted < 64 {
-        if results[i as usize].failure.is_none() {
-            let again = one_run(root, i, false);
-            b.determinism_reexecuted += 1;
-            if again.log_hash != results[i as usize].log_hash {
-                b.determinism_mismatches += 1;
-            }
+    for (i, h) in sampled {
+        let again = one_run(root, i, false);
+        b.determinism_reexecuted += 1;
+        if again.log_hash != h {
+            b.determinism_mismatches += 1;
         }
-        i += step;
     }
     b
 }
